@@ -289,7 +289,9 @@ package mkvs
 //@   note a pointer that is not in the LRU list (a dirty or new node) is left alone (first statement of tryRemoveNode)
 
 //@ func cache.rollbackNode
-//@   props C02 C03
+//@   props C02 C03 C13
+//@   modifies ptr, c
+//@   trustframe
 //@   ensures ptr.Node == old(ptr.Node) && ptr.Clean == old(ptr.Clean) && ptr.Hash == old(ptr.Hash)
 //@   ensures old(ptr.LRU != nil && typeIs[*node.InternalNode](ptr.Node)) ==> c.lruInternalPos != old(ptr.LRU) && ptr.LRU == nil
 //@   ensures old(ptr.LRU != nil && typeIs[*node.LeafNode](ptr.Node)) ==> c.lruLeafPos != old(ptr.LRU) && ptr.LRU == nil
@@ -308,6 +310,7 @@ package mkvs
 //@   note (C03) a pointer whose node is in memory never dereferences to "no node", whatever the cache evicted: callers (doGet, doInsert, doRemove, the iterator) treat a nil node as an EMPTY subtree. This fails on the pinned tree for a DIRTY internal node whose attached leaf (the key that is a prefix of the subtree's keys) was evicted from the value cache: known finding F10
 //@   note when the node had to be fetched from the remote peer (remoteSync was called) and no error is returned, a node is returned: a peer's proof that verifies but does not carry the requested node cannot make a present key look absent
 //@   ensures ptr != nil ==> GUseNode > old(GUseNode)
+//@   ensures err == nil && result0 != nil ==> result0 == ptr.Node
 
 //@ func cache.remoteSync
 //@   props C04
@@ -384,8 +387,20 @@ package mkvs
 //@   modifies nothing
 //@   ensures result != nil && fresh(result) && result.Node == n
 
+//@ ghost func PClean(p *node.Pointer) bool { return p == nil || p.Clean }
+
+//@ func cache.newInternalNodePtr
+//@   props C02 C03 C13
+//@   modifies nothing
+//@   ensures result != nil && fresh(result) && result.Node == n
+
+//@ func cache.newInternalNode
+//@   props C02 C03 C13
+//@   modifies nothing
+//@   ensures result != nil && fresh(result)
+
 //@ func tree.doInsert
-//@   props C02 C03
+//@   props C02 C03 C13
 //@   requires t != nil
 //@   assume-pre (node\.Key\.(AppendBit|GetBit|BitLength|Merge|Split|CommonPrefixLen)|mkvs\.cache\.derefNodePtr)$
 //@   precall mkvs\.cache\)\.newInternalNode$ :: ite(argAs[*node.Pointer](2) != nil, 1, 0) + ite(argAs[*node.Pointer](3) != nil, 1, 0) + ite(argAs[*node.Pointer](4) != nil, 1, 0) == 2 && (argIs(2, ptr) || argIs(3, ptr) || argIs(4, ptr))
@@ -394,6 +409,10 @@ package mkvs
 //@   preassign InternalNode.Right :: err == nil
 //@   note (C03) the result of the insertion below is stored into a part slot of an existing node only after that insertion SUCCEEDED: a failed insert (cancelled context, a node that cannot be fetched) leaves every node it passed as it was - a failed recursive call returns no pointer, and storing that would cut the branch toward the key off a node that stays clean (seed C03_i stored before the error check: after a failed Insert untouched keys read as absent)
 //@   note every internal node an insertion creates (an edge split) has EXACTLY two parts: the new leaf and the node that was there (as attached leaf, left or right child) - never a node with a single part or one that drops the existing subtree
+//@   ensures err == nil ==> result0.insertedLeaf != nil
+//@   note (C13) a successful insertion names the leaf that holds the key afterwards - ALSO when the key already held exactly that value and nothing was changed: Insert copies this pointer into the key's pending write-log entry, and a pending entry without a leaf is stored by the node database as a DELETION of the key (seed C13_j returned no leaf on the unchanged-value path: the served write log said "remove K" for a key present in the end root)
+//@   ensures-local err == nil && result0.newRoot == ptr && ptr != nil && defined(nd) && typeIs[*node.InternalNode](nd) ==> !ptr.Clean || (PClean(nd.(*node.InternalNode).LeafNode) && PClean(nd.(*node.InternalNode).Left) && PClean(nd.(*node.InternalNode).Right))
+//@   note (C02) an internal node that an insertion passed and that stays in place is marked dirty whenever one of its three parts is dirty afterwards - also when the new key landed in the node's empty attached-leaf slot: a clean pointer above a dirty part keeps the stale hash at the next commit, and the root would not change although a key was added (seed C02_d marked the node only when the key had existed)
 
 // ---- commit (C02): hashes of dirty nodes are recomputed bottom-up ----
 
@@ -408,3 +427,12 @@ package mkvs
 //@   ensures err == nil && ptr != nil ==> result0 == ptr.Hash
 //@   ensures err == nil && old(ptr != nil && ptr.Clean) ==> GHashUpd == old(GHashUpd)
 //@   note the hash of a dirty internal node is recomputed only after its three parts (attached leaf, left, right) were committed successfully - i.e. after THEIR hashes were brought up to date (bottom-up) -, a dirty node is handed to the database only after a hash recomputation happened in this call (its own: the counter cannot tell it from one further down, so a missing recomputation is caught for leaves and for nodes whose parts are clean), a clean pointer is not rehashed, and the hash returned is the pointer's. Not proved: that the parts' hashes are still the recomputed ones when the parent is hashed (no frame over the recursion, see A.8)
+
+// ---- lookups that build proofs (C04, completeness): the queried key's own leaf is in the proof ----
+
+//@ func tree.doGet
+//@   props C04
+//@   requires t != nil
+//@   assume-pre (node\.Key\.(AppendBit|GetBit|BitLength|Merge|Split|CommonPrefixLen)|mkvs\.cache\.derefNodePtr|mkvs\.tree\.doGet)$
+//@   preassign doGetOptions.proofBuilder :: opts.proofBuilder != nil && uf("pbVersion", opts.proofBuilder) == 0
+//@   note when the looked-up key ends exactly at an internal node, the descent into that node's attached leaf goes on WITH the proof builder - the leaf is included in the proof - for every proof version but 0 (where the leaf travels inside the internal node's own encoding), siblings requested or not: a proof that carries the queried key's leaf only as a hash verifies but does not determine the value or presence of the key asked about (seed C04_l also dropped the builder when siblings were requested)
